@@ -433,6 +433,8 @@ Proof.
   - unfold fund in H. inversion H; subst. eapply core_inv_frame; eauto.
   - unfold slash_val in H. destruct (negb (has_val s v)); inversion H; subst; eapply core_inv_frame; eauto.
   - unfold env_val in H. inversion H; subst. eapply core_inv_frame; eauto.
+  - unfold slash_past in H. inversion H; subst. eapply core_inv_frame; eauto.
+  - unfold env_stat in H. inversion H; subst. eapply core_inv_frame; eauto.
   - unfold exec_batch in H. guards H. inversion H; subst. eapply core_inv_frame; eauto.
   - destruct R as (K & SL). destruct (export_import_registry _ _ I H) as (HK & HR & _). split.
     + intros a r Hr. apply HR in Hr. destruct Hr as (Hr & <-). rewrite HK. apply in_map. exact Hr.
